@@ -382,6 +382,33 @@ def run(prop, tier="quick", seed=0, replay=None, only=None):
                                  f"the obligation and " + ("no counter-model survives once they are taken into account (abstraction artefact)"
                                                            if "refuted" in checks else "could not be confirmed against them"))
                 continue
+            # abstractions with no counter-model semantics: a mismatch of matrix normal forms / element functions of different
+            # product words, and a `raise` reached only by the interpreter.  They count as violations only with a failing input of
+            # the real code (this contract's own run-time evaluation, or its bounded companion); otherwise: not proved
+            sat_obs = [o for o in obs if o.verdict == "sat"]
+            if any((o.meta or {}).get("matrix_layer") or (o.meta or {}).get("raised") for o in sat_obs) \
+                    and not any(v[0] == name for v in violations):
+                cdv = [c_ for c_ in contracts if c_.name == sat_obs[0].meta.get("contract")]
+                rcd_ = cdv[0] if cdv else None
+                if rcd_ is not None and rcd_.replay_with:
+                    rr_ = [c_ for c_ in all_contracts if c_.name == rcd_.replay_with]
+                    rcd_ = rr_[0] if rr_ else None
+                have_native = False
+                if rcd_ is not None and rcd_.native:
+                    pool_ = list(nat.get(rcd_.name, {}).get("failures", []))
+                    if not pool_:
+                        budget = min(200, max(20, 3 * (rcd_.native_runs or 60)))
+                        r_ = native_runs(rcd_, None, seed * 7919 + 17, budget)
+                        nat.setdefault(rcd_.name, r_)
+                        if rcd_.name in nat and nat[rcd_.name] is not r_:
+                            nat[rcd_.name]["failures"].extend(r_["failures"])
+                        pool_ = r_["failures"]
+                    have_native = bool([f for f in pool_ if not match_known(known, f["obligation"])])
+                if not have_native:
+                    what = "a raise reached only by the interpreter" if any((o.meta or {}).get("raised") for o in sat_obs) \
+                        else "abstract matrices that the rewriting laws did not identify"
+                    undecided.append(f"{name}: not proved ({what}); no failing input of the real code found by the bounded companion")
+                    continue
             failed_names.append(name)
             if any(v[0] == name for v in violations):
                 continue
